@@ -13,7 +13,9 @@ MANIFEST = {
             "vs model step by step, plus monitors mon_fresh / mon_reload / allocation-during-reload-kept on the implementation.",
     "note": "trusted: Coq kernel (no axioms); fake API server; informer events delivered on request through a verif hook; "
             "ConfigurePool atomic (fix cdfc2c2) - the interleaving part of the quantifier is discharged by atomicity in the model and "
-            "exercised on the code by the list-time yield point",
+            "exercised on the code by the list-time yield point; the scheduler plugin's reload path (configmap tick -> ensureIPAMConf "
+            "-> ConfigurePool, a failed reload retried by the next tick) is exercised by plugin-level reload scenarios with the "
+            "monitor bound_ip_is_configured",
 }
 
 def run(ctx):
@@ -26,6 +28,11 @@ def run(ctx):
     kinds = ["alloc_in_subnet"] * 4 + ["alloc_ranges"] * 2 + ["alloc_specific"] * 2 + ["admin_reserve"] * 3 + \
         ["admin_unreserve"] * 2 + ["watch_deliver"] * 3 + ["configure"] * 3 + ["restart", "release", "release_ips", "reserve"]
     ipamcheck.run(ctx, "C09", "C09", THEOREMS, REFUTED, kinds=kinds)
+    # plugin level: the reload path of the scheduler plugin (ensureIPAMConf: a reload whose List failed is retried by the next
+    # tick; ranges taken away are not handed out afterwards), real FloatingIPPlugin vs Model/Plugin.v
+    import plugincheck
+    plugincheck.run(ctx, "C09", [], [], plugincheck.mon_c09_plugin, nrandom=(20, 200), incarnations=False, fixed=False,
+                    extra_scenarios=plugincheck.reload_scenarios(ctx.rng, ctx))
 
 
 def replay(ctx, path):
